@@ -1,0 +1,89 @@
+//go:build verif
+
+package config
+
+// Contracts for the verification machinery in /verif (see /verif/DESIGN.md).
+// This file contains only comments; it is compiled to nothing.
+
+//@ prop C11
+
+// moff(a, b, j): length of the merge of b[0..j) into a, i.e. the position at which the
+// expansion of b[j] starts. "inherit" expands to the whole of a, anything else to itself.
+//@ ghost moff(a []string, b []string, j int) int = j <= 0 ? 0 : moff(a, b, j-1) + (b[j-1] == "inherit" ? len(a) : 1)
+
+//@ lemma moff_nonneg(a []string, b []string, j int)
+//@   requires 0 <= j
+//@   ensures  moff(a, b, j) >= 0
+//@   induct   j
+
+// the expansion of b[j] lies entirely before position moff(i) for j < i
+//@ lemma moff_mono(a []string, b []string, j int, i int)
+//@   requires 0 <= j && j < i
+//@   ensures  moff(a, b, j) + (b[j] == "inherit" ? len(a) : 1) <= moff(a, b, i)
+//@   induct   i
+//@   trigger  moff(a, b, j), moff(a, b, i)
+
+// From the documentation: the overriding list b is taken in order, every "inherit" is
+// replaced by the whole of the inherited list a.
+//@ func mergeLists
+//@   pure
+//@   uses     moff_nonneg, moff_mono
+//@   ensures  [len] len(result) == moff(a, b, len(b))
+//@   ensures  [lit] forall j int :: {b[j]} 0 <= j && j < len(b) && b[j] != "inherit" ==> result[moff(a, b, j)] == b[j]
+//@   ensures  [inh] forall j int, k int :: {b[j], a[k]} 0 <= j && j < len(b) && b[j] == "inherit" && 0 <= k && k < len(a) ==> result[moff(a, b, j) + k] == a[k]
+//@   loop 1   index i
+//@   loop 1   invariant [len] len(out) == moff(a, b, i)
+//@   loop 1   invariant [lit] forall j int :: {b[j]} 0 <= j && j < i && b[j] != "inherit" ==> out[moff(a, b, j)] == b[j]
+//@   loop 1   invariant [inh] forall j int, k int :: {b[j], a[k]} 0 <= j && j < i && b[j] == "inherit" && 0 <= k && k < len(a) ==> out[moff(a, b, j) + k] == a[k]
+
+// Merge: each of the four lists is overridden independently; a nil override leaves it untouched.
+//@ func (Config).Merge
+//@   pure
+//@   ensures  [checks]   result.Checks == (ocfg.Checks != nil ? mergeLists(cfg.Checks, ocfg.Checks) : cfg.Checks)
+//@   ensures  [init]     result.Initialisms == (ocfg.Initialisms != nil ? mergeLists(cfg.Initialisms, ocfg.Initialisms) : cfg.Initialisms)
+//@   ensures  [dot]      result.DotImportWhitelist == (ocfg.DotImportWhitelist != nil ? mergeLists(cfg.DotImportWhitelist, ocfg.DotImportWhitelist) : cfg.DotImportWhitelist)
+//@   ensures  [http]     result.HTTPStatusCodeWhitelist == (ocfg.HTTPStatusCodeWhitelist != nil ? mergeLists(cfg.HTTPStatusCodeWhitelist, ocfg.HTTPStatusCodeWhitelist) : cfg.HTTPStatusCodeWhitelist)
+
+// mergeConfigs is the left fold of Merge: outermost configuration first.
+//@ ghost foldc(confs []Config, i int) Config = i <= 1 ? confs[0] : foldc(confs, i-1).Merge(confs[i-1])
+//@ func mergeConfigs
+//@   panics_when len(confs) == 0
+//@   ensures  [fold] result == foldc(confs, len(confs))
+//@   loop 1   index i
+//@   loop 1   invariant conf == foldc(confs, i+1)
+
+// normalizeList removes adjacent duplicates only (the order and multiplicity of non-adjacent
+// entries matters: lists are evaluated left to right).
+// kept(list, i): number of entries of list[0..i) that are kept.
+//@ ghost kept(list []string, i int) int = i <= 0 ? 0 : (i == 1 ? 1 : kept(list, i-1) + (list[i-1] != list[i-2] ? 1 : 0))
+//@ lemma kept_bounds(list []string, i int)
+//@   requires 0 <= i
+//@   ensures  kept(list, i) >= 0 && kept(list, i) <= i && (i >= 1 ==> kept(list, i) >= 1)
+//@   induct   i
+//@ lemma kept_mono(list []string, j int, i int)
+//@   requires 0 <= j && j <= i
+//@   ensures  kept(list, j) <= kept(list, i)
+//@   induct   i
+//@   trigger  kept(list, j), kept(list, i)
+//@ func normalizeList
+//@   uses     kept_bounds, kept_mono
+//@   may_panic
+//@   ensures  [len]  len(result) == kept(list, len(list))
+//@   ensures  [elem] forall j int :: {list[j]} 0 <= j && j < len(list) && (j == 0 || list[j] != list[j-1]) ==> result[kept(list, j+1) - 1] == list[j]
+//@   ensures  [noinherit] forall j int :: {result[j]} 0 <= j && j < len(result) ==> result[j] != "inherit"
+//@   loop 1   invariant [len]  len(nlist) == kept(list, i+1)
+//@   loop 1   invariant [elem] forall j int :: {list[j]} 0 <= j && j <= i && (j == 0 || list[j] != list[j-1]) ==> nlist[kept(list, j+1) - 1] == list[j]
+//@   loop 2   index k
+//@   loop 2   invariant forall j int :: {list[j]} 0 <= j && j < k ==> list[j] != "inherit"
+
+// parseConfigs collects configurations from the innermost directory outward, appends the
+// default configuration and reverses the list: the result is ordered outermost first (default
+// configuration in front), which is the order mergeConfigs folds over.
+//@ func parseConfigs
+//@   modifies heap
+//@   loop 2   ghost collected = out
+//@   loop 2   invariant [len] len(out) == len(collected) && 0 <= i && i <= len(out)/2
+//@   loop 2   invariant [swapped] forall k int :: {out[k]} 0 <= k && k < i ==> out[k] == collected[len(out)-1-k] && out[len(out)-1-k] == collected[k]
+//@   loop 2   invariant [middle] forall k int :: {out[k]} i <= k && k < len(out)-i ==> out[k] == collected[k]
+//@   at return #6 assert [reversed] forall k int :: {result0[k]} 0 <= k && k < len(result0) ==> result0[k] == collected[len(result0)-1-k]
+//@   ensures  [default_first] result1 == nil ==> len(result0) >= 1 && result0[0] == DefaultConfig
